@@ -1711,7 +1711,7 @@ class Interp:
                     if name == "sorted":
                         key = kwargs.get("key")
                         rev = kwargs.get("reverse", False)
-                        if key is None and conc:
+                        if key is None and (conc or all(is_concrete(x) and not _has_sym(x) for x in items)) and isinstance(rev, (bool, int)):
                             return sorted(items, reverse=bool(rev))
                         return self.external_call("sorted", args, kwargs, node)
                 return self.external_call(name, args, kwargs, node)
